@@ -229,6 +229,21 @@ def generate(tier):
                 for style in 'tn':
                     add(build('struct', style, ch, sps, tag='|wide'))
                     add(build('enum', style, ch, sps, vstyles=['u', 't', 'n', 'F'], focus=3, tag='|wide'))
+    # very wide: 12 fields, expression at positions 0, 1, 9, 10, 11 (and two at once), the rest defaulted with distinct types cycling
+    tcyc = [('d', 'u8'), ('d', 'u16'), ('d', 'V'), ('d', 'bool')]
+    ecyc = {'u8': 'int/u8', 'u16': 'ints/u16', 'V': 'call/V', 'bool': 'bool/bool'}
+    for where in [(0,), (1,), (9,), (10,), (11,), (1, 10), (2, 11), (9, 10)]:
+        ch = [tcyc[i % 4] for i in range(12)]
+        for w in where:
+            ch[w] = ecyc[ch[w][1]]
+        for style in 'tn':
+            add(build('struct', style, ch, [w % 5 for w in range(12)], tag='|vwide'))
+            add(build('enum', style, ch, [(w + 1) % 5 for w in range(12)], vstyles=['t', 'F', 'u'], focus=1, tag='|vwide'))
+    from .common import rawify
+    for c in [x for x in cases if x.key.startswith('C08|struct|n') or x.key.startswith('C08|enum|n')][::3]:
+        r_ = rawify(c)
+        if r_:
+            cases.append(r_)
     # unit / empty structs, new
     for style, n in (('u', 0), ('t', 0), ('n', 0)):
         for new in ('none', 'new'):
